@@ -347,7 +347,7 @@ def check (m : Mon) (opl obs : String) : Mon × Option String :=
         else if exp < o.now then some s!"site=ff.expired accepted with expiration {exp} < ledger {o.now}"
         else if user = FWD then some "site=ff.user-is-forwarder accepted with user = forwarder"
         else if tokArg < TOK0 ∨ tokArg ≥ TOK0 + NTOK then some "site=ff.token fee token is not a token"
-        else if ¬ (prev.alCount = 0 ∨ m.allowed.contains tokArg) then
+        else if ¬ (m.allowed.isEmpty ∨ m.allowed.contains tokArg) then
           some s!"site=ff.token-not-allowed token {tokArg} accepted but allow-list is {m.allowed}"
         else if nt.bal ≠ expectBal then
           some s!"site=ff.charge balances of token {tokArg} are {nt.bal}, expected {expectBal} (user {user} -{fee}, recipient {rcp} +{fee})"
